@@ -8,6 +8,10 @@ import SoupVerif.Model.Codec
 import SoupVerif.Generated.Regexes
 import SoupVerif.Generated.Lexicon
 import SoupVerif.Model.Parser
+import SoupVerif.Model.Escape
+import SoupVerif.Model.Context
+import SoupVerif.Model.Pretty
+import SoupVerif.Model.Cache
 open SoupVerif
 
 def wildStripImpl (s : Str) : Str :=
@@ -103,6 +107,43 @@ def handle (req : Sx) : Sx :=
       match Parser.compile asciiEnv Gen.lexicon Gen.builtinsRec pat cs pf with
       | .ok l => .list [.int 0, Codec.encSelList l]
       | .error e => .list [.int 1, .int (errCode e.kind), Sx.ofNat e.offset, Sx.ofStr e.pattern]
+    | _, _, _ => .int (-9)
+  -- escape / identifier scanner / css_unescape: (8 s) (9 s) (10 s)
+  | .list [.int 8, t] =>
+    match t.toStr? with
+    | some t => Sx.ofStr (Escape.escape t)
+    | none => .int (-9)
+  | .list [.int 9, t] =>
+    match t.toStr? with
+    | some t => (match Escape.scanIdent t with
+      | some (m, r) => .list [Sx.ofStr m, Sx.ofStr r]
+      | none => .list [])
+    | none => .int (-9)
+  | .list [.int 10, t] =>
+    match t.toStr? with
+    | some t => .list [Sx.ofBool (Escape.cssUnescapeRaises t), Sx.ofStr (Escape.cssUnescape t)]
+    | none => .int (-9)
+  -- get_pattern_context: (11 pattern index)
+  | .list [.int 11, pt, i] =>
+    match pt.toStr?, i.toNat? with
+    | some pt, some i =>
+      let r := Context.getPatternContext pt i
+      .list [Sx.ofStr r.1, Sx.ofNat r.2.1, Sx.ofNat r.2.2]
+    | _, _ => .int (-9)
+  -- pretty: (12 s)
+  | .list [.int 12, t] =>
+    match t.toStr? with
+    | some t => Sx.ofStr (Pretty.pretty Pretty.pyEnv t)
+    | none => .int (-9)
+  -- LRU cache history: (13 N failFrom (ops)) ; op k >= 0 = compile key k (keys >= failFrom raise), -1 = purge
+  | .list [.int 13, n, ff, .list ops] =>
+    match n.toNat?, ff.toNat?, ops.mapM Sx.toInt? with
+    | some n, some ff, some ops =>
+      let parse : Nat → Except Unit Nat := fun k => if k ≥ ff then .error () else .ok k
+      let step (acc : Cache.State Nat Nat × List Sx) (o : Int) : Cache.State Nat Nat × List Sx :=
+        let st := if o < 0 then Cache.purge acc.1 else (Cache.compile n parse acc.1 o.toNat).1
+        (st, acc.2 ++ [.list [Sx.ofNat st.hits, Sx.ofNat st.misses, Sx.ofNat st.currsize]])
+      .list (ops.foldl step (Cache.State.empty, [])).2
     | _, _, _ => .int (-9)
   | _ => .list [.int (-10)]
 
